@@ -55,9 +55,11 @@ def location_rows(pairs):
     return rows
 
 
-def check_trace(err, files):
+def check_trace(err, files, root="main.jst"):
     """include trace against the files themselves; returns a problem or None"""
     prev = err["file"]
+    if err["file"] in files and err["file"] != root and not err.get("trace"):
+        return "[no-trace] the diagnostic is in the included file %s but carries no include chain" % err["file"]
     for k, (p, n) in enumerate(err.get("trace") or []):
         if p not in files:
             return "trace entry %d names %r which is not a file of the project" % (k, p)
@@ -166,6 +168,31 @@ def main(tier):
             cases.append({"id": cid, "files": {k: b64(v) for k, v in allf.items()}, "root": "main.jst"})
             files_of[cid] = allf
             files_of[cid + "#target"] = target
+    # MACRO and PASTE in different files, the fault inside the macro body and found only after the expansion: wherever the
+    # diagnostic is located, its chain is the chain of INCLUDE lines that leads to THAT file
+    mfaults = [("undefined_type", ["  GET /zmac", "    200 @zundefinedtype"]), ("undefined_tag", ["  GET /zmac", "    Tags @zundefinedtag", "    200 any"]),
+               ("undefined_in_query", ["  GET /zmac", "    Query", "      @zundefinedq", "    200 any"]),
+               ("duplicate_method", ["  GET /zdup", "    200 any", "  GET /zdup", "    200 any"])]
+    for fk, (fname, body) in enumerate(mfaults):
+        mac = "MACRO @zm\n(\n" + "\n".join(body) + "\n)\n"
+        forms = {
+            "macro_in_included_file": {"main.jst": "JSIGHT 0.3\nTYPE @za any\n\nINCLUDE a.jst\nGET /zb\n  200 any\nPASTE @zm\n", "a.jst": "TYPE @zc any\n\n" + mac},
+            "macro_and_paste_in_different_branches": {"main.jst": "JSIGHT 0.3\n\nINCLUDE a.jst\nTYPE @za any\n\nINCLUDE mid.jst\n",
+                                                      "a.jst": "\nTYPE @zc any\n" + mac, "mid.jst": "TYPE @zd any\n\n\nINCLUDE sub/b.jst\n",
+                                                      "sub/b.jst": "TYPE @ze any\nPASTE @zm\n"},
+            "macro_in_root_paste_in_included_file": {"main.jst": "JSIGHT 0.3\n" + mac + "TYPE @za any\nINCLUDE mid.jst\n",
+                                                     "mid.jst": "TYPE @zd any\nINCLUDE sub/b.jst\n", "sub/b.jst": "\n\nPASTE @zm\n"},
+            "macro_deeper_than_paste": {"main.jst": "JSIGHT 0.3\nINCLUDE mid.jst\n\n\nPASTE @zm\n", "mid.jst": "TYPE @zd any\nINCLUDE sub/b.jst\n",
+                                        "sub/b.jst": "TYPE @ze any\n" + mac},
+        }
+        for fnm, ff in forms.items():
+            for ck, nl in enumerate(["\n", "\r\n", "\r"]):
+                if not thorough and (fk + ck) % 3:
+                    continue
+                cid = "m%d_%s_%d" % (fk, fnm, ck)
+                allf = {k: v.replace("\n", nl) for k, v in ff.items()}
+                cases.append({"id": cid, "files": {k: b64(v) for k, v in allf.items()}, "root": "main.jst"})
+                files_of[cid] = allf
     obs = harness("run", cases)
     loc_pairs, loc_src = [], []
     for c in cases:
@@ -193,7 +220,7 @@ def main(tier):
                 loc_pairs.append((content, e["index"]))
                 loc_src.append((cid, e))
         if not bad:
-            tr = check_trace(e, fs)
+            tr = check_trace(e, fs, c.get("root", "main.jst"))
             if tr:
                 bad = "include trace is wrong: " + tr
                 sig["what"] = "trace"
